@@ -349,7 +349,11 @@ class AbstractMessageLogEntry(abc.ABC):
             elif operator == "~=":
                 if val is None:
                     return False
-                return expected in val
+                try:
+                    return expected in val
+                except ValueError:
+                    # An int that isn't a byte value can't be contained in bytes
+                    return False
             elif operator == "<":
                 return val < expected
             elif operator == "<=":
